@@ -1,6 +1,7 @@
 package yqlib
 
 import (
+	"math"
 	"sort"
 	"strconv"
 	"strings"
@@ -247,4 +248,54 @@ func VerifSelfSymSort() {
 	sort.Ints(xs)
 	verifObserve("sorted", xs)
 	verifCover("SELF/sort/end")
+}
+
+// VerifSelfSymFloats: the floating-point fragment (symbolic float64 from a bit pattern, conversions from and to
+// int64, comparisons, arithmetic, the float-format text atom) against the Go compiler, one model per class.
+func VerifSelfSymFloats() {
+	k := verifInt64("k")
+	bits := verifInt64("bits")
+	f := math.Float64frombits(uint64(bits))
+	switch verifChoice("class", 8) {
+	case 0: // a float next to 2^53, an integer next to it
+		verifAssume(verifAnd(f >= 9007199254740000.0, f <= 9007199254750000.0))
+		verifAssume(verifAnd(k >= 9007199254740000, k <= 9007199254750000))
+		verifAssume(float64(k) == f)
+		verifAssume(int64(f) != k)
+	case 1: // fraction
+		verifAssume(verifAnd(f > 2.0, f < 3.0))
+		verifAssume(f != 2.5)
+		verifAssume(k == 2)
+	case 2: // negative, large
+		verifAssume(f < -1e300)
+		verifAssume(!math.IsInf(f, 0))
+		verifAssume(k < -9000000000000000000)
+	case 3: // beyond the int64 range
+		verifAssume(verifAnd(f >= 9223372036854775808.0, f < 1e30))
+		verifAssume(k > 9223372036854775000)
+	case 4: // NaN
+		verifAssume(math.IsNaN(f))
+		verifAssume(k == 7)
+	case 5: // subnormal
+		verifAssume(verifAnd(f > 0, f < 1e-310))
+		verifAssume(k == -1)
+	case 6: // negative zero vs zero
+		verifAssume(verifAnd(f == 0, bits != 0))
+		verifAssume(k == 0)
+	default: // tie at 2^53+1 rounds to even
+		verifAssume(k == 9007199254740993)
+		verifAssume(f == float64(k))
+	}
+	fk := float64(k)
+	obs := []interface{}{fk < f, fk == f, fk > f, f + 1.5, f * 2, -f, f - fk, f / 3, math.IsNaN(f), math.IsInf(f, 1), fk, math.Abs(f)}
+	if f >= -9223372036854775808.0 && f < 9223372036854775808.0 {
+		obs = append(obs, int64(f), int64(f) < k)
+	}
+	if !math.IsNaN(f) && !math.IsInf(f, 0) {
+		txt := verifFtoa(f)
+		back, err := strconv.ParseFloat(txt, 64)
+		obs = append(obs, txt, back == f, err == nil, txt == "2.25", txt == verifFtoa(math.Float64frombits(uint64(verifIteInt(k > 0, bits, 4612248968380809216)))))
+	}
+	verifObserve("floats", obs)
+	verifCover("SELF/floats/end")
 }
